@@ -642,6 +642,8 @@ def run(prog, rep):
 
 DF = 'fim/slivers/delegations.py'
 MUTANTS = [
+    {'name': 'capacity-slot-accepts-any-delegations', 'file': 'fim/slivers/base_sliver.py', 'rule': 'R5',
+     'find': "        assert(cdel is None or cdel.type == DelegationType.CAPACITY)\n", 'replace': ""},
     {'name': 'reference-with-details-accepted', 'file': 'fim/slivers/delegations.py', 'rule': 'R4',
      'find': "                if ABCPropertyGraphConstants.FIELD_CAPACITIES in v.keys() or ABCPropertyGraphConstants.FIELD_LABELS in v.keys():\n",
      'replace': "                if False:\n"},
